@@ -431,6 +431,15 @@ theorem mem_recipients {d : Node} {G : Grp} {e : Nat} {a j m b : Nat} (hv : d.va
 
 theorem clk_of_ext {s s' : State} (x : Ext s s') : clk s' = clk s := (x.node 0).2.1
 
+/-- **`Quiet` at every boundary of a fair schedule.** In a healthy state (which every boundary of a fair schedule is:
+`c07_chain_continues`) in which the members of `U` are level at `x`, the hypothesis `Quiet` of
+`c07_reshare_step_progress` holds — derived, not assumed. -/
+theorem c07_quiet_of_healthy {nxt : Nat → Option Nat} {s : State} {U : List Nat} {G : Grp} {e : Nat} {ix : Nat → Nat}
+    (h : Healthy nxt s U G e ix) (x : Nat) (hh : ∀ i ∈ U, (s.node i).head = x) : Quiet s U x e :=
+  quiet_of_sane h.good.sane U x e
+    (fun k => by obtain ⟨m, hm, hkm⟩ := h.top k; rw [hh m hm] at hkm; exact hkm)
+    (fun j hj => by rw [h.vault j hj])
+
 /-- **One tick sub-round of the healthy side.** The clocks show `c`, every member of `U` stores `c − 1` or `c` (at most one
 round behind: joiners started the way core starts them, `Catchup`, receive beacons only through sync until the
 transition and are one round behind at every other tick). After the tick sub-round of the next period (clocks `c + 1`):
@@ -454,9 +463,7 @@ theorem c07_fair_tick {nxt : Nat → Option Nat} {s : State} {U : List Nat} {G :
     have side : Side s U G e ix x :=
       ⟨h.frame.nodup, h.lt, h.up, h.conn, h.vault, h.frame.member, h.frame.idxLt, h.frame.idxNodup,
        fun k _ hu _ => Nat.le_of_eq (hh k (h.only k hu))⟩
-    have hq : Quiet s U x e := quiet_of_sane h.good.sane U x e
-      (fun k => by obtain ⟨m, hm, hkm⟩ := h.top k; rw [hh m hm] at hkm; exact hkm)
-      (fun j hj => by rw [h.vault j hj])
+    have hq : Quiet s U x e := c07_quiet_of_healthy h x hh
     exact c07_reshare_step_progress s U G e ix x (c + 1) side h.thr hh (fun i _ => by rw [hck i]) hx hq
   refine ⟨hH, hclk, ?_, ?_⟩
   · intro j hj
